@@ -10,10 +10,14 @@ import SlipVerif.Driver.Util
    <classes>  c:p.p.p;c:p.p   the class precedence list of every class that occurs as an argument class
    <op>       d<q>:<k.k>:<id>:<mode>   defmethod, q ∈ p b a r (primary before after around), mode ∈ g d s
               r<q>:<k.k>               remove-method
-              c:<c.c>                  call with arguments of these classes
+              c:<c.c>                  call with arguments of these classes (precedence lists from <classes>)
+              C:<p.p.p>/<p.p>          call with arguments whose precedence lists are given explicitly
+                                       (a class redefined during the history: same head, other list)
+              m:<c.c>  M:<p.p>/<p.p>   compute-applicable-methods, arguments given as for c / C
    reply      ok <outcome>*            one outcome per call, in order:
               <events>=<id>|=nil|!na|!nn      events joined by ',' ("-" when none):
               m<id> (body ran)  e<id>+ / e<id>- (around entered, next-method-p true/false)  l<id> (around left)
+              for compute-applicable-methods: M<q><id>,<q><id>…  (M- when the list is empty)
 -/
 namespace SlipVerif.Driver.Dispatch
 open SlipVerif.Dispatch
@@ -34,7 +38,16 @@ def parseMode : String → Option Mode
   | "s" => some .stop
   | _ => none
 
-def parseOp (n : Nat) (known : List Nat) (s : String) : Option Op :=
+def parsePrecs (s : String) : Option (List (List Nat)) := (s.splitOn "/").mapM nats
+
+def parseOp (n : Nat) (tC : Nat) (tbl : List (Nat × List Nat)) (s : String) : Option Op :=
+  let byClass (k : String) : Option (List (List Nat)) := do
+    let cs ← nats k
+    if cs.length = n then cs.mapM (fun c => tbl.lookup c) else none
+  let explicit (k : String) : Option (List (List Nat)) := do
+    let ps ← parsePrecs k
+    -- every class precedence list must contain t (every slip Hierarchy() ends with t)
+    if ps.length = n ∧ ps.all (fun p => p.contains tC) then some ps else none
   match s.splitOn ":" with
   | [h, k, id, mode] =>
     match h.toList with
@@ -51,9 +64,10 @@ def parseOp (n : Nat) (known : List Nat) (s : String) : Option Op :=
       let q ← parseQual q
       let k ← nats k
       if k.length = n then some (.remove q k) else none
-    | ['c'] => do
-      let cs ← nats k
-      if cs.length = n ∧ cs.all (fun c => known.contains c) then some (.call cs) else none
+    | ['c'] => (byClass k).map .call
+    | ['C'] => (explicit k).map .call
+    | ['m'] => (byClass k).map .methods
+    | ['M'] => (explicit k).map .methods
     | _ => none
   | _ => none
 
@@ -65,11 +79,6 @@ def parseClasses (s : String) : Option (List (Nat × List Nat)) :=
       let p ← nats p
       some (c, p)
     | _ => none)
-
-def cplOf (tbl : List (Nat × List Nat)) (c : Nat) : List Nat :=
-  match tbl.lookup c with
-  | some p => p
-  | none => []   -- never reached: calls are checked against the table when parsed
 
 def showEv : Ev → String
   | .run i => s!"m{i}"
@@ -84,6 +93,10 @@ def showOut (o : Out) : Option String :=
   | .noApplicable => some s!"{tr}!na"
   | .noNext => some s!"{tr}!nn"
   | .noCall => none
+  | .methods l =>
+    let q : Qual → String
+      | .primary => "p" | .before => "b" | .after => "a" | .around => "r"
+    some (if l.isEmpty then "M-" else "M" ++ ",".intercalate (l.map (fun e => q e.1 ++ toString e.2)))
 
 def handle (entry : String) (args : List String) : String :=
   match args with
@@ -92,14 +105,14 @@ def handle (entry : String) (args : List String) : String :=
     | some n, some tC, some tbl =>
       -- every class precedence list must contain t (every slip Hierarchy() ends with t)
       if !tbl.all (fun e => e.2.contains tC) then "bad-request class-without-t" else
-      match ops.mapM (parseOp n (tbl.map (·.1))) with
+      match ops.mapM (parseOp n tC tbl) with
       | none => "bad-request op"
       | some ops =>
-        let E : Env := ⟨cplOf tbl, tC, n⟩
+        let E : Env := ⟨tC, n⟩
         let outs :=
           match entry with
           | "run" => some (runOps E Aux.init ops).2
-          | "spec" => some (specOuts E ops Table.empty)
+          | "spec" => some (specOuts ops Table.empty)
           | _ => none
         match outs with
         | none => "bad-request entry"
